@@ -19,6 +19,12 @@
 //!   allow ka <peer> <hexmethod:hextarget,…>  → the answers of one keep-alive connection joined by `|`
 //!   allow accepterr <errno>                  → ok   (listener.accept() failed: the process had no free descriptor)
 //! `<peer>` = `<fam>/<addr>/<source port>` or `unix`.
+//! round 5 (requests in flight: overlapping scrapes with an update in between; see `do_overlap`):
+//!   allow cnew <v0,v1,…>                     → ok   (series 0…n-1 with these values, nothing in flight)
+//!   allow cupd <k> <d>                       → ok   (series k += d, completed)
+//!   allow carrive <id> <peer> <hex target>   → ok   (the GET reached the handler)
+//!   allow cread <id> <k> / creadall <id>     → ok   (its rendering loads series k / every series not loaded yet)
+//!   allow crespond <id>                      → 403 empty | 200 ok | 200 render <v0,v1,…>
 //!
 //! implementation-side oracles (independent of the model; plain integer arithmetic on the entries the
 //! test generated): membership ⇒ 403+empty+no metric text / 200+"OK" / 200+body == handle.render() with
@@ -1703,6 +1709,10 @@ fn run_uds_case(r: &mut Rng, l: &mut Listener, list: &Option<Vec<Entry>>, out: &
             }
         }
     }
+    // (round 5) overlapping scrapes over the unix socket
+    if l.handle.is_some() && !gave_up() {
+        do_overlap(l, &no_list, &[], false, r, out);
+    }
     // a TCP client cannot reach this endpoint at all
     out.count("case:uds-endpoint");
 }
@@ -1838,6 +1848,436 @@ fn run_install_cases(cfg: &Cfg, env: &Env, out: &mut Out) {
         // the listener of an installed exporter lives as long as the process: leave it
         std::mem::forget(l);
     }
+}
+
+// ---------------------------------------------------------------------------------------------
+// round 5 (after seed C18-8): OVERLAPPING scrapes with an update in between — the body of a 200 response is a
+// rendering taken AFTER the request arrived (`scrape_fresh`, `scrape_sees_completed_updates`).
+//
+// Client A's rendering is stopped in the middle of its walk over the registry (deterministically: a process-wide
+// hook on the existing yield point `prom.render.gen_read` parks the first thread that reaches its k-th point; or,
+// without the hook, by a registry so large that a rendering takes long enough).  While A is mid-rendering the
+// application increments some series and the harness SEES the new values in `handle.render()`; a denied peer and
+// a `/health` probe must be answered at once; then client B sends its GET.  B's body must show every update made
+// before B was sent — whatever A's rendering holds.  A's own body may show each updated series old or new (its
+// request arrived before the update); which ones it shows old tells the harness where A's loads stood, and the
+// whole exchange is replayed on the model as a schedule of `carrive / cread / cupd / crespond` events.
+// The freshness oracle does not depend on timing: on a tree where every request renders after it arrived, B can
+// never fail it, however the threads are scheduled (only the power to detect depends on the overlap).
+
+mod gate {
+    use std::sync::atomic::{AtomicBool, AtomicUsize, Ordering};
+    use std::sync::{Condvar, Mutex};
+    use std::time::{Duration, Instant};
+
+    pub const IDLE: u8 = 0;
+    pub const ARMED: u8 = 1;
+    pub const HOLDING: u8 = 2;
+
+    pub struct G {
+        pub state: u8,
+        pub at: usize,
+        pub seen: usize,
+    }
+    pub static G: Mutex<G> = Mutex::new(G { state: IDLE, at: 0, seen: 0 });
+    pub static CV: Condvar = Condvar::new();
+    /// fast path: the mutex is only touched while a gate is armed
+    pub static ACTIVE: AtomicBool = AtomicBool::new(false);
+    /// points seen since the last reset (calibration: points per rendering)
+    pub static POINTS: AtomicUsize = AtomicUsize::new(0);
+    /// a parked rendering is let go after this long whatever happens (the harness releases it much earlier)
+    pub const HOLD_MAX: Duration = Duration::from_secs(20);
+
+    pub fn hook(id: &'static str) {
+        if id != "prom.render.gen_read" {
+            return;
+        }
+        POINTS.fetch_add(1, Ordering::Relaxed);
+        if !ACTIVE.load(Ordering::Acquire) {
+            return;
+        }
+        let mut g = G.lock().unwrap_or_else(|e| e.into_inner());
+        if g.state != ARMED {
+            return;
+        }
+        g.seen += 1;
+        if g.seen < g.at {
+            return;
+        }
+        g.state = HOLDING;
+        CV.notify_all();
+        let deadline = Instant::now() + HOLD_MAX;
+        while g.state == HOLDING {
+            let left = deadline.saturating_duration_since(Instant::now());
+            if left.is_zero() {
+                g.state = IDLE;
+                break;
+            }
+            g = CV.wait_timeout(g, left).unwrap_or_else(|e| e.into_inner()).0;
+        }
+    }
+
+    pub fn arm(at: usize) {
+        let mut g = G.lock().unwrap_or_else(|e| e.into_inner());
+        *g = G { state: ARMED, at, seen: 0 };
+        ACTIVE.store(true, Ordering::Release);
+    }
+
+    /// waits until a rendering is parked at the gate; false if none arrived in time
+    pub fn wait_held(max: Duration) -> bool {
+        let deadline = Instant::now() + max;
+        let mut g = G.lock().unwrap_or_else(|e| e.into_inner());
+        while g.state == ARMED {
+            let left = deadline.saturating_duration_since(Instant::now());
+            if left.is_zero() {
+                break;
+            }
+            g = CV.wait_timeout(g, left).unwrap_or_else(|e| e.into_inner()).0;
+        }
+        g.state == HOLDING
+    }
+
+    pub fn release() {
+        let mut g = G.lock().unwrap_or_else(|e| e.into_inner());
+        g.state = IDLE;
+        ACTIVE.store(false, Ordering::Release);
+        CV.notify_all();
+    }
+}
+
+/// how a client reaches the endpoint
+#[derive(Clone)]
+enum Via {
+    Tcp(IpAddr, SocketAddr),
+    Unix(std::path::PathBuf),
+}
+
+fn scrape_via(via: &Via, target: &str, timeout: Duration) -> Result<Resp, String> {
+    match via {
+        Via::Tcp(src, dst) => {
+            let mut t = connect_from(Some(*src), *dst).map_err(|e| format!("connect: {:?} {}", e.kind(), e))?;
+            t.write_all(&get_request(target, true)).map_err(|e| format!("write: {:?}", e.kind()))?;
+            let mut carry = vec![];
+            read_response_carry(&mut t, Instant::now() + timeout, &mut carry)
+        }
+        Via::Unix(path) => {
+            let mut t = std::os::unix::net::UnixStream::connect(path).map_err(|e| format!("connect: {:?}", e.kind()))?;
+            let _ = t.set_read_timeout(Some(timeout));
+            let _ = t.set_write_timeout(Some(timeout));
+            t.write_all(&get_request(target, true)).map_err(|e| format!("write: {:?}", e.kind()))?;
+            let mut carry = vec![];
+            read_response_carry(&mut t, Instant::now() + timeout, &mut carry)
+        }
+    }
+}
+
+const OV: &str = "c18_ov";
+static OV_ROUND: std::sync::atomic::AtomicUsize = std::sync::atomic::AtomicUsize::new(0);
+static THOROUGH: std::sync::atomic::AtomicBool = std::sync::atomic::AtomicBool::new(false);
+
+/// values of the overlap series of round `round` in a body, by index; `None` = series not in the body
+fn ov_values(body: &[u8], round: usize, m: usize) -> Vec<Option<u64>> {
+    let mut vals = vec![None; m];
+    let text = String::from_utf8_lossy(body);
+    let rtag = format!("r=\"{}\"", round);
+    for line in text.lines() {
+        if !line.starts_with("c18_ov{") || !line.contains(&rtag) {
+            continue;
+        }
+        let Some(ipos) = line.find("i=\"") else { continue };
+        let rest = &line[ipos + 3..];
+        let Some(iend) = rest.find('"') else { continue };
+        let Ok(i) = rest[..iend].parse::<usize>() else { continue };
+        let Some(v) = line.rsplit(' ').next().and_then(|v| v.parse::<u64>().ok()) else { continue };
+        if i < m {
+            vals[i] = Some(v);
+        }
+    }
+    vals
+}
+
+/// the answer line of the `stepC` layer for a response
+fn ov_answer(resp: &Resp, round: usize, m: usize) -> (String, Vec<Option<u64>>) {
+    if resp.status == 403 {
+        return (if resp.body.is_empty() { "403 empty".to_string() } else { "403 body".to_string() }, vec![]);
+    }
+    if resp.status == 200 && resp.body == b"OK" {
+        return ("200 ok".to_string(), vec![]);
+    }
+    if resp.status == 200 {
+        let vals = ov_values(&resp.body, round, m);
+        let txt = vals.iter().map(|v| v.map_or("~".to_string(), |v| v.to_string())).collect::<Vec<_>>().join(",");
+        return (format!("200 render {}", txt), vals);
+    }
+    (format!("{} other", resp.status), vec![])
+}
+
+/// one overlap scenario on a running endpoint; `unix`: the endpoint is a unix socket.  `free_running`: no gate —
+/// the registry is filled until a rendering takes long enough and A is given a head start of a quarter rendering.
+fn do_overlap(l: &Listener, list: &Option<Vec<Entry>>, peers: &[Addr], free_running: bool, r: &mut Rng, out: &mut Out) {
+    let (Some(h), Some(rec)) = (l.handle.as_ref(), l.recorder.as_ref()) else { return };
+    // who can be served here?
+    let mut served: Vec<(Via, String)> = vec![];
+    let mut anyone: Vec<(Via, String, bool)> = vec![];
+    if let Some(p) = &l.uds_path {
+        served.push((Via::Unix(p.clone()), "unix".to_string()));
+        anyone.push((Via::Unix(p.clone()), "unix".to_string(), true));
+    } else {
+        for p in peers {
+            let Some((dst, seen)) = l.route(p) else { continue };
+            // only addresses this machine can really bind
+            if connect_from(Some(p.ip()), dst).is_err() {
+                continue;
+            }
+            let ok = oracle_allowed2(list, p, &seen);
+            let tok = format!("{}/0", seen.tok());
+            if ok {
+                served.push((Via::Tcp(p.ip(), dst), tok.clone()));
+            }
+            anyone.push((Via::Tcp(p.ip(), dst), tok, ok));
+        }
+    }
+    if served.is_empty() {
+        out.count("overlap:no-allowed-peer");
+        return;
+    }
+    let round = OV_ROUND.fetch_add(1, std::sync::atomic::Ordering::Relaxed);
+    let m = r.range(2, 9);
+    let mut old: Vec<u64> = vec![];
+    let mut ctrs: Vec<metrics::Counter> = vec![];
+    for i in 0..m {
+        let k = Key::from_parts(
+            OV,
+            vec![Label::new("case", l.label.clone()), Label::new("r", round.to_string()), Label::new("i", i.to_string())],
+        );
+        let c = rec.register_counter(&k, &METADATA);
+        let v = r.range(1, 100000) as u64;
+        c.increment(v);
+        old.push(v);
+        ctrs.push(c);
+    }
+    if free_running {
+        // filler until a rendering takes at least ~120 ms (bounded: 60k series)
+        let mut n = 0u32;
+        loop {
+            let t0 = Instant::now();
+            let _ = h.render();
+            if t0.elapsed() >= Duration::from_millis(120) || n >= 60_000 {
+                break;
+            }
+            for _ in 0..5000 {
+                let k = Key::from_parts("c18_fill", vec![Label::new("r", round.to_string()), Label::new("n", n.to_string())]);
+                rec.register_counter(&k, &METADATA).increment(1);
+                n += 1;
+            }
+        }
+        out.count_n("overlap:filler-series", n as u64);
+    }
+    // points per rendering (one per counter and gauge): where the gate can stand
+    metrics::verif::set_hook(Some(gate::hook));
+    gate::POINTS.store(0, std::sync::atomic::Ordering::Relaxed);
+    let t0 = Instant::now();
+    let _ = h.render();
+    let render_time = t0.elapsed();
+    let points = gate::POINTS.load(std::sync::atomic::Ordering::Relaxed);
+    // the gauge loop comes after the counter loop: a gate at the LAST point (the fixture's one gauge) stands after
+    // every counter was loaded, a gate at point 1 before any
+    let at = if free_running || points == 0 {
+        0
+    } else {
+        match r.below(4) {
+            0 | 1 => points,
+            2 => r.range(1, points),
+            _ => r.range((points + 1) / 2, points),
+        }
+    };
+    let pick_target = |r: &mut Rng| -> String {
+        loop {
+            let t = gen_target(r);
+            if path_of(&t) != "/health" && t.len() < 2000 {
+                return t;
+            }
+        }
+    };
+    let (via_a, tok_a) = r.pick(&served).clone();
+    let (via_b, tok_b) = r.pick(&served).clone();
+    let target_a = if r.chance(1, 2) { "/metrics".to_string() } else { pick_target(r) };
+    let target_b = if r.chance(1, 2) { "/metrics".to_string() } else { pick_target(r) };
+    let long = IO_TIMEOUT + gate::HOLD_MAX;
+    if at > 0 {
+        gate::arm(at);
+    }
+    let ta = {
+        let (via, target) = (via_a.clone(), target_a.clone());
+        std::thread::spawn(move || scrape_via(&via, &target, long))
+    };
+    let held = if at > 0 {
+        gate::wait_held(Duration::from_secs(6))
+    } else {
+        std::thread::sleep(render_time / 4);
+        false
+    };
+    if !held {
+        // nobody is parked: take the gate away before the harness itself renders
+        gate::release();
+    }
+    out.count(if at == 0 { "overlap:free-running" } else if held { "overlap:gated" } else { "overlap:gate-not-reached" });
+    // the update, completed and SEEN before B is sent
+    let mut delta: Vec<u64> = vec![0; m];
+    let n_upd = r.range(1, m);
+    let mut idx: Vec<usize> = (0..m).collect();
+    for j in 0..n_upd {
+        let pick = j + r.below(m - j);
+        idx.swap(j, pick);
+        let d = r.range(1, 1000) as u64;
+        ctrs[idx[j]].increment(d);
+        delta[idx[j]] = d;
+    }
+    let new: Vec<u64> = old.iter().zip(delta.iter()).map(|(o, d)| o + d).collect();
+    let seen_now = ov_values(h.render().as_bytes(), round, m);
+    if seen_now.iter().zip(new.iter()).any(|(s, n)| *s != Some(*n)) {
+        out.oracle_fail(
+            "PrometheusHandle::render() does not show completed increments",
+            &format!("series {:?} after increments {:?}: render shows {:?}", old, delta, seen_now),
+        );
+    }
+    // while A is mid-rendering: a denied peer and a /health probe are answered at once
+    let mut between: Vec<(String, String, String)> = vec![];
+    for _ in 0..r.below(3) {
+        let (via, tok, ok) = r.pick(&anyone).clone();
+        let target = if r.chance(1, 2) || !ok { "/health".to_string() } else { "/health?x=1".to_string() };
+        let target = if !ok && r.chance(1, 2) { "/metrics".to_string() } else { target };
+        match scrape_via(&via, &target, IO_TIMEOUT) {
+            Ok(resp) => {
+                let (ans, _) = ov_answer(&resp, round, m);
+                let want = if ok { "200 ok" } else { "403 empty" };
+                if ans != want {
+                    out.oracle_fail(
+                        "request that needs no rendering answered wrongly while another client's rendering was in progress",
+                        &format!("peer {} allowed={} target {:?} → {:?}", tok, ok, target, ans),
+                    );
+                }
+                between.push((tok, target, ans));
+                out.count("overlap:probe-during-rendering");
+            }
+            Err(e) if e.starts_with("connect: AddrNotAvailable") || e.starts_with("connect: InvalidInput") => {}
+            Err(e) => {
+                UNANSWERED.fetch_add(1, std::sync::atomic::Ordering::Relaxed);
+                out.oracle_fail(
+                    "request that needs no rendering was not answered while another client's rendering was in progress",
+                    &format!("peer {} allowed={} target {:?} :: {}", tok, ok, target, e),
+                );
+            }
+        }
+    }
+    // client B: sent now, after the update
+    let (txb, rxb) = std::sync::mpsc::channel();
+    {
+        let (via, target) = (via_b.clone(), target_b.clone());
+        std::thread::spawn(move || {
+            let _ = txb.send(scrape_via(&via, &target, long));
+        });
+    }
+    // B may answer while A is still parked (every request renders for itself) or only after A is let go (renderings
+    // one at a time): both are fine; A is let go after a wait that is long for a loopback exchange
+    let early = if held { rxb.recv_timeout(Duration::from_millis(if render_time > Duration::from_millis(100) { 1500 } else { 400 })).ok() } else { None };
+    let b_first = early.is_some();
+    gate::release();
+    let res_b = match early {
+        Some(x) => x,
+        None => rxb.recv_timeout(long).unwrap_or_else(|_| Err("scraper thread gave no result".into())),
+    };
+    let res_a = ta.join().unwrap_or_else(|_| Err("scraper thread panicked".into()));
+    metrics::verif::set_hook(None);
+    let ctx = format!(
+        "{} series of {:?} at {:?} (a rendering: {} points, {:?}); client A {} GET {:?} {}; then increments {:?} (seen in render()); then client B {} GET {:?}",
+        m,
+        OV,
+        old,
+        points,
+        render_time,
+        tok_a,
+        target_a,
+        if at == 0 { "running freely, head start of a quarter rendering".to_string() } else if held { format!("parked at point {} of its rendering", at) } else { format!("gate at point {} not reached", at) },
+        delta,
+        tok_b,
+        target_b
+    );
+    let (resp_a, resp_b) = match (res_a, res_b) {
+        (Ok(a), Ok(b)) => (a, b),
+        (a, b) => {
+            UNANSWERED.fetch_add(1, std::sync::atomic::Ordering::Relaxed);
+            out.oracle_fail(
+                "overlapping scrapes were not both answered",
+                &format!("{} :: A {:?} B {:?}", ctx, a.as_ref().map(|x| x.status), b.as_ref().map(|x| x.status)),
+            );
+            return;
+        }
+    };
+    let (ans_a, vals_a) = ov_answer(&resp_a, round, m);
+    let (ans_b, vals_b) = ov_answer(&resp_b, round, m);
+    // ORACLES, independent of the model
+    let stale_b: Vec<usize> = (0..m).filter(|i| vals_b.get(*i).copied().flatten() != Some(new[*i])).collect();
+    if resp_b.status != 200 || !stale_b.is_empty() {
+        out.oracle_fail(
+            "200 body is OLDER than the request: an update completed (and seen) before the GET was sent is missing from it",
+            &format!("{} :: B got {:?}, series are {:?} (stale: {:?}); A got {:?}", ctx, ans_b, new, stale_b, ans_a),
+        );
+    }
+    let odd_a: Vec<usize> = (0..m)
+        .filter(|i| {
+            let v = vals_a.get(*i).copied().flatten();
+            v != Some(new[*i]) && v != Some(old[*i])
+        })
+        .collect();
+    if resp_a.status != 200 || !odd_a.is_empty() {
+        out.oracle_fail(
+            "200 body shows a value the series never had between the request and the response",
+            &format!("{} :: A got {:?}, series were {:?} then {:?} (odd: {:?})", ctx, ans_a, old, new, odd_a),
+        );
+    }
+    for (resp, who) in [(&resp_a, "A"), (&resp_b, "B")] {
+        if resp.status == 200 && resp.body.len() < (1 << 20) {
+            if let Err(e) = expo::check_exposition(&String::from_utf8_lossy(&resp.body)) {
+                out.oracle_fail("200 body of an overlapping scrape is not well-formed exposition text", &format!("{} :: {} :: {}", ctx, who, e));
+            }
+        }
+    }
+    // the exchange as a schedule of the model's events
+    out.op(&format!("allow cnew {}", crate::util::list(old.iter().map(|v| v.to_string()))), "ok");
+    out.op(&format!("allow carrive 1 {} {}", tok_a, hexs(&target_a)), "ok");
+    let mut a_before = 0;
+    for i in 0..m {
+        if delta[i] > 0 && vals_a.get(i).copied().flatten() == Some(old[i]) {
+            out.op(&format!("allow cread 1 {}", i), "ok");
+            a_before += 1;
+        }
+    }
+    for i in 0..m {
+        if delta[i] > 0 {
+            out.op(&format!("allow cupd {} {}", i, delta[i]), "ok");
+        }
+    }
+    for (j, (tok, target, ans)) in between.iter().enumerate() {
+        out.op(&format!("allow carrive {} {} {}", 10 + j, tok, hexs(target)), "ok");
+        out.op(&format!("allow crespond {}", 10 + j), ans);
+    }
+    out.op(&format!("allow carrive 2 {} {}", tok_b, hexs(&target_b)), "ok");
+    if b_first {
+        out.op("allow creadall 2", "ok");
+        out.op("allow crespond 2", &ans_b);
+        out.op("allow creadall 1", "ok");
+        out.op("allow crespond 1", &ans_a);
+    } else {
+        out.op("allow creadall 1", "ok");
+        out.op("allow crespond 1", &ans_a);
+        out.op("allow creadall 2", "ok");
+        out.op("allow crespond 2", &ans_b);
+    }
+    out.count("overlap:scenarios");
+    out.count(if b_first { "overlap:B-answered-while-A-parked" } else { "overlap:B-answered-after-A" });
+    out.count(if a_before == 0 { "overlap:A-shows-all-updates" } else if a_before == n_upd { "overlap:A-shows-no-update" } else { "overlap:A-shows-some-updates" });
+    out.count_n("overlap:updated-series", n_upd as u64);
 }
 
 // ---------------------------------------------------------------------------------------------
@@ -2036,6 +2476,13 @@ fn run_case(r: &mut Rng, env: &Env, spec: CaseSpec, tag: &str, out: &mut Out) {
         let t = gen_target(r);
         step(&mut l, r, out, &p, &t);
     }
+    // 2b. (round 5) overlapping scrapes with an update in between: every hand-picked configuration, half of the others
+    if l.handle.is_some() && !gave_up() && (tag.starts_with("corpus") || r.chance(1, 2)) {
+        do_overlap(&l, &list, &peers, false, r, out);
+        if (THOROUGH.load(std::sync::atomic::Ordering::Relaxed) && r.chance(1, 12)) || tag.starts_with("corpus=9 ") {
+            do_overlap(&l, &list, &peers, true, r, out);
+        }
+    }
     // 3. faults, then an allowed peer must still be served
     if spec.faults > 0 {
         for _ in 0..spec.faults {
@@ -2158,6 +2605,7 @@ fn parse_entry_text(s: &str) -> Entry {
 }
 
 pub fn run(cfg: &Cfg, out: &mut Out) {
+    THOROUGH.store(cfg.thorough, std::sync::atomic::Ordering::Relaxed);
     let env = probe_env();
     out.count(if env.has_v6_lo { "env:ipv6-loopback" } else { "env:no-ipv6-loopback" });
     out.count(if env.global_v4.is_some() { "env:global-v4" } else { "env:no-global-v4" });
